@@ -29,6 +29,16 @@ type SoloOut struct {
 	S       *sim.Solo
 	Timer   []string // Timer.Reset/Extend arguments
 	Classes map[string]int
+	// OwnTs: per own proposal, its timestamp relative to the run's epoch and whether the inputs alone say that the
+	// clock decides it (previous block timestamp + increment <= clock truncated to the increment)
+	OwnTs []OwnTs
+}
+
+type OwnTs struct {
+	H        uint32
+	V        byte
+	Rel      int64
+	ClockWin bool
 }
 
 // RunSoloScript draws a configuration and a script and runs it against one real node.
@@ -70,6 +80,13 @@ func RunSoloScript(r sim.Src, mons []*sim.Mon, keepLog bool, sh SoloShape) *Solo
 			out.Timer = append(out.Timer, fmt.Sprintf("reset(%d,%d,%s)", h, v, d))
 		},
 		TimerExtend: func(n *sim.Node, d time.Duration) { out.Timer = append(out.Timer, fmt.Sprintf("extend(%s)", d)) },
+		Broadcast: func(n *sim.Node, p sim.Payload) {
+			if p.T == dbft.PrepareRequestType {
+				ts := p.Body.(*vt.PrepareRequest).Ts
+				now := uint64(n.Now().UnixNano())
+				out.OwnTs = append(out.OwnTs, OwnTs{H: p.Ht, V: p.V, Rel: int64(ts) - cfg.Epoch.UnixNano(), ClockWin: n.TipTs+inc <= now/inc*inc})
+			}
+		},
 	}
 	s := sim.NewSolo(cfg, r, self, false, append([]*sim.Mon{tm}, mons...), keepLog)
 	out.S = s
